@@ -136,6 +136,7 @@ def run(ctx):
                                      "or a call failed in the implementation trace"})
         if (not ok or ctx.failures) and not ctx.violations:
             search(ctx, exe)
+    core.init_contract(ctx, ["fiber_mutex"])  # rt/h_init.c: real init on dirty memory
     core.finish(ctx, extra_assumptions=ASSUME)
 
 
@@ -168,6 +169,8 @@ def search(ctx, exe):
 
 
 def replay(ctx, payload):
+    if payload.get("harness") == "h_init":
+        return core.replay_init(ctx, payload)
     exe = build(ctx)
     c = payload.get("case")
     if not exe or not c:
